@@ -238,6 +238,9 @@ fn rn(src: &str, cap: Option<usize>) -> String {
   }
   let g0 = graph_part(&p.render);
   let defs = def_of(&p.render);
+  // the renamed text went through the printer (which regroups `a + (b + c)`, finding C08-F5): compare
+  // with the tree of the *formatted* original, which went through the same printer
+  let formatted_dump = parse(&p.formatted).map(|x| x.dump).unwrap_or_default();
   let mut n = 0;
   let mut all_renamed: Vec<String> = Vec::new();
   // the rename result depends only on (definition, uses): all occurrences of one binding must
@@ -280,6 +283,12 @@ fn rn(src: &str, cap: Option<usize>) -> String {
       Some(x) => x,
       None => return fail("renamed-does-not-parse", &hex(t1.as_bytes())),
     };
+    // renaming changes identifier names only: the structural dump of the renamed module (explicit
+    // type arguments, annotations, pattern structure, statement kinds, every location in order) is
+    // the dump of the original with the new name put back
+    if p1.dump.replace(&format!(" {new_name} "), &format!(" {name} ")) != formatted_dump {
+      return fail("renamed-tree-differs-beyond-names", &hex(t1.as_bytes()));
+    }
     if graph_part(&p1.render) != g0 {
       return fail("def-use-graph-changed", &hex(t1.as_bytes()));
     }
